@@ -1,1 +1,303 @@
-/-! C18 — property theorems (none yet). -/
+import Req.Client.Result
+/-!
+C18 — property theorems, part 1: classification and result binding
+(`Req.Result`, the model of `defaultResultStateChecker`, `ResultState`, `parseResponseBody`,
+`unmarshalBody`, `ToBytes`). The pipeline theorems are in `Req.Props.C18Pipeline`.
+-/
+namespace Req.Props.C18
+open Req.Result
+
+/-! ### classification -/
+
+/-- The default checker is exactly the three status bands, for every integer status. -/
+theorem default_bands (code : Int) :
+    (defaultChecker code = .success ↔ 200 ≤ code ∧ code ≤ 299) ∧
+    (defaultChecker code = .error ↔ 400 ≤ code) ∧
+    (defaultChecker code = .unknown ↔ code ≤ 199 ∨ (300 ≤ code ∧ code ≤ 399)) := by
+  unfold defaultChecker
+  by_cases h1 : code > 199 ∧ code < 300 <;> by_cases h2 : code > 399 <;> simp [h1, h2] <;> omega
+
+example : defaultChecker 204 = .success ∧ defaultChecker 399 = .unknown ∧ defaultChecker 400 = .error
+    ∧ defaultChecker 199 = .unknown ∧ defaultChecker 300 = .unknown := by decide
+
+/-- A response without an http response is in no state. -/
+theorem classify_nil (custom : Option ResultState) (code : Int) :
+    classify false custom code = .unknown := by
+  simp [classify]
+
+/-- A custom checker replaces the default on every status. -/
+theorem classify_custom (s : ResultState) (code : Int) : classify true (some s) code = s := by
+  simp [classify]
+
+theorem classify_default (code : Int) : classify true none code = defaultChecker code := by
+  simp [classify]
+
+/-- `IsSuccessState` and `IsErrorState` are never both true. -/
+theorem states_exclusive (hasHttp : Bool) (custom : Option ResultState) (code : Int) :
+    ¬ (isSuccessState hasHttp custom code = true ∧ isErrorState hasHttp custom code = true) := by
+  unfold isSuccessState isErrorState
+  intro ⟨h1, h2⟩
+  simp only [Bool.and_eq_true, beq_iff_eq] at h1 h2
+  rw [h1.2] at h2
+  exact absurd h2.2 (by decide)
+
+/-! ### which target is selected -/
+
+theorem select_success_iff (i : BindIn) :
+    selectTarget i = some .success ↔
+      ∃ h, i.http = some h ∧ i.successTarget = true ∧ stateOf h = .success ∧ h.status ≠ noContent := by
+  obtain ⟨http, sT, eT, cE, respErr, cached, slots⟩ := i
+  rcases http with _ | h
+  · simp [selectTarget]
+  · cases hst : stateOf h <;> cases sT <;> cases eT <;> cases cE <;> by_cases h204 : h.status = noContent <;>
+      simp [selectTarget, hst, h204]
+
+theorem select_errorReq_iff (i : BindIn) :
+    selectTarget i = some .errorReq ↔
+      ∃ h, i.http = some h ∧ i.errorTarget = true ∧ stateOf h = .error ∧ h.status ≠ noContent := by
+  obtain ⟨http, sT, eT, cE, respErr, cached, slots⟩ := i
+  rcases http with _ | h
+  · simp [selectTarget]
+  · cases hst : stateOf h <;> cases sT <;> cases eT <;> cases cE <;> by_cases h204 : h.status = noContent <;>
+      simp [selectTarget, hst, h204]
+
+/-- The client-level common error type is used only when the request carries no error target. -/
+theorem select_errorCommon_iff (i : BindIn) :
+    selectTarget i = some .errorCommon ↔
+      ∃ h, i.http = some h ∧ i.errorTarget = false ∧ i.commonErr = true ∧ stateOf h = .error
+        ∧ h.status ≠ noContent := by
+  obtain ⟨http, sT, eT, cE, respErr, cached, slots⟩ := i
+  rcases http with _ | h
+  · simp [selectTarget]
+  · cases hst : stateOf h <;> cases sT <;> cases eT <;> cases cE <;> by_cases h204 : h.status = noContent <;>
+      simp [selectTarget, hst, h204]
+
+/-! ### binding -/
+
+/-- "carries content and unmarshals", as the code decides it: no error recorded so far, the body
+is (or can be) read, and the unmarshaller chosen from the Content-Type accepts it. -/
+def Ready (i : BindIn) (h : Http) : Prop :=
+  i.respErr = none ∧ (i.bodyCached = true ∨ h.readOK = true) ∧ codecOK h = true
+
+instance (i : BindIn) (h : Http) : Decidable (Ready i h) := by unfold Ready; infer_instance
+
+/-- The slots after `parseResponseBody`, in closed form. -/
+theorem parse_slots (i : BindIn) :
+    (parseBody i).slots =
+      match i.http, selectTarget i with
+      | some h, some t => if Ready i h then store i.slots t else i.slots
+      | _, _ => i.slots := by
+  obtain ⟨http, sT, eT, cE, respErr, cached, slots⟩ := i
+  rcases http with _ | h
+  · simp [parseBody]
+  · rcases hsel : selectTarget ⟨some h, sT, eT, cE, respErr, cached, slots⟩ with _ | t
+    · simp [parseBody, hsel]
+    · rcases respErr with _ | e <;> cases cached <;> cases hr : h.readOK <;> cases hc : codecOK h <;>
+        simp [parseBody, hsel, Ready, hr, hc]
+
+/-- The error `parseResponseBody` returns, in closed form: none when no target is selected;
+otherwise the already recorded error, else a read failure, else an unmarshalling failure. -/
+theorem parse_err (i : BindIn) :
+    (parseBody i).err =
+      match i.http, selectTarget i with
+      | some h, some _ =>
+        match i.respErr with
+        | some e => some e
+        | none =>
+          if i.bodyCached = false ∧ h.readOK = false then some .read
+          else if codecOK h = true then none else some .unmarshal
+      | _, _ => none := by
+  obtain ⟨http, sT, eT, cE, respErr, cached, slots⟩ := i
+  rcases http with _ | h
+  · simp [parseBody]
+  · rcases hsel : selectTarget ⟨some h, sT, eT, cE, respErr, cached, slots⟩ with _ | t
+    · simp [parseBody, hsel]
+    · rcases respErr with _ | e <;> cases cached <;> cases hr : h.readOK <;> cases hc : codecOK h <;>
+        simp [parseBody, hsel, hr, hc]
+
+/-- **success_bound_iff** — starting from empty slots, the success result is populated exactly
+when a target was supplied, the response is in the success state, it is not a 204, and the body
+reads and unmarshals. -/
+theorem success_bound_iff (i : BindIn) (hs : i.slots = {}) :
+    (parseBody i).slots.result = true ↔
+      ∃ h, i.http = some h ∧ i.successTarget = true ∧ stateOf h = .success ∧ h.status ≠ noContent
+        ∧ Ready i h := by
+  rw [parse_slots]
+  constructor
+  · intro hres
+    rcases hh : i.http with _ | h
+    · simp [hh, hs] at hres
+    · rcases hsel : selectTarget i with _ | t
+      · simp [hh, hsel, hs] at hres
+      · simp only [hh, hsel] at hres
+        by_cases hr : Ready i h
+        · rw [if_pos hr] at hres
+          cases t
+          · obtain ⟨h', e1, e2, e3, e4⟩ := (select_success_iff i).mp hsel
+            rw [hh] at e1; cases e1
+            exact ⟨h, rfl, e2, e3, e4, hr⟩
+          · simp [store, hs] at hres
+          · simp [store, hs] at hres
+        · rw [if_neg hr] at hres; simp [hs] at hres
+  · rintro ⟨h, hh, hT, hst, h204, hr⟩
+    have hsel := (select_success_iff i).mpr ⟨h, hh, hT, hst, h204⟩
+    simp [hh, hsel, hr, store]
+
+example : (parseBody { http := some { status := 200, ct := [], custom := none, readOK := true, jsonOK := true, xmlOK := false },
+                       successTarget := true, errorTarget := true, commonErr := true, respErr := none,
+                       bodyCached := true, slots := {} }).slots = { result := true, error := none } := by decide
+
+/-- **error_bound_iff** — the request-level error target is populated exactly when it was
+supplied, the response is in the error state, it is not a 204, and the body reads and unmarshals. -/
+theorem error_bound_iff (i : BindIn) (hs : i.slots = {}) :
+    (parseBody i).slots.error = some .errorReq ↔
+      ∃ h, i.http = some h ∧ i.errorTarget = true ∧ stateOf h = .error ∧ h.status ≠ noContent
+        ∧ Ready i h := by
+  rw [parse_slots]
+  constructor
+  · intro hres
+    rcases hh : i.http with _ | h
+    · simp [hh, hs] at hres
+    · rcases hsel : selectTarget i with _ | t
+      · simp [hh, hsel, hs] at hres
+      · simp only [hh, hsel] at hres
+        by_cases hr : Ready i h
+        · rw [if_pos hr] at hres
+          cases t
+          · simp [store, hs] at hres
+          · obtain ⟨h', e1, e2, e3, e4⟩ := (select_errorReq_iff i).mp hsel
+            rw [hh] at e1; cases e1
+            exact ⟨h, rfl, e2, e3, e4, hr⟩
+          · simp [store] at hres
+        · rw [if_neg hr] at hres; simp [hs] at hres
+  · rintro ⟨h, hh, hT, hst, h204, hr⟩
+    have hsel := (select_errorReq_iff i).mpr ⟨h, hh, hT, hst, h204⟩
+    simp [hh, hsel, hr, store]
+
+/-- … and an object of the client-level common error type exactly when, in addition, the
+request carries NO error target of its own (request-level target before client-level type). -/
+theorem error_common_bound_iff (i : BindIn) (hs : i.slots = {}) :
+    (parseBody i).slots.error = some .errorCommon ↔
+      ∃ h, i.http = some h ∧ i.errorTarget = false ∧ i.commonErr = true ∧ stateOf h = .error
+        ∧ h.status ≠ noContent ∧ Ready i h := by
+  rw [parse_slots]
+  constructor
+  · intro hres
+    rcases hh : i.http with _ | h
+    · simp [hh, hs] at hres
+    · rcases hsel : selectTarget i with _ | t
+      · simp [hh, hsel, hs] at hres
+      · simp only [hh, hsel] at hres
+        by_cases hr : Ready i h
+        · rw [if_pos hr] at hres
+          cases t
+          · simp [store, hs] at hres
+          · simp [store] at hres
+          · obtain ⟨h', e1, e2, e3, e4, e5⟩ := (select_errorCommon_iff i).mp hsel
+            rw [hh] at e1; cases e1
+            exact ⟨h, rfl, e2, e3, e4, e5, hr⟩
+        · rw [if_neg hr] at hres; simp [hs] at hres
+  · rintro ⟨h, hh, hT, hC, hst, h204, hr⟩
+    have hsel := (select_errorCommon_iff i).mpr ⟨h, hh, hT, hC, hst, h204⟩
+    simp [hh, hsel, hr, store]
+
+example : (parseBody { http := some { status := 404, ct := [120, 109, 108], custom := none, readOK := true, jsonOK := false, xmlOK := true },
+                       successTarget := true, errorTarget := false, commonErr := true, respErr := none,
+                       bodyCached := false, slots := {} }).slots = { result := false, error := some .errorCommon } := by decide
+
+/-- `resp.error` never holds the success target. -/
+theorem error_slot_kind (i : BindIn) (hs : i.slots = {}) : (parseBody i).slots.error ≠ some .success := by
+  rw [parse_slots]
+  rcases i.http with _ | h
+  · simp [hs]
+  · rcases selectTarget i with _ | t
+    · simp [hs]
+    · simp only []
+      split
+      · cases t <;> simp [store, hs]
+      · simp [hs]
+
+/-- **never_both** (one invocation) — `parseResponseBody` on a fresh response never populates
+both the success result and the error result. -/
+theorem never_both (i : BindIn) (hs : i.slots = {}) :
+    ¬ ((parseBody i).slots.result = true ∧ (parseBody i).slots.error ≠ none) := by
+  rw [parse_slots]
+  rcases i.http with _ | h
+  · simp [hs]
+  · rcases selectTarget i with _ | t
+    · simp [hs]
+    · simp only []
+      split
+      · cases t <;> simp [store, hs]
+      · simp [hs]
+
+/-- Slots only ever gain what `store` puts there: a populated slot stays populated. -/
+theorem parse_slots_mono (i : BindIn) :
+    (i.slots.result = true → (parseBody i).slots.result = true) := by
+  rw [parse_slots]
+  intro h0
+  rcases i.http with _ | h
+  · simpa using h0
+  · rcases selectTarget i with _ | t
+    · simpa using h0
+    · simp only []
+      split
+      · cases t <;> simp [store, h0]
+      · exact h0
+
+/-- **unmarshal_failure_surfaces** (binding level) — when a target is selected, nothing was
+recorded before and the body reads but does not unmarshal, `parseResponseBody` returns the
+unmarshalling error and leaves the slots untouched. -/
+theorem unmarshal_failure_surfaces (i : BindIn) (h : Http) (t : Target)
+    (hh : i.http = some h) (hsel : selectTarget i = some t) (he : i.respErr = none)
+    (hread : i.bodyCached = true ∨ h.readOK = true) (hbad : codecOK h = false) :
+    (parseBody i).err = some .unmarshal ∧ (parseBody i).slots = i.slots := by
+  constructor
+  · rw [parse_err]; simp only [hh, hsel, he, hbad]
+    have : ¬ (i.bodyCached = false ∧ h.readOK = false) := by
+      rintro ⟨a, b⟩; rcases hread with c | c <;> simp_all
+    simp [this]
+  · rw [parse_slots]; simp [hh, hsel, Ready, hbad]
+
+/-- Conversely `parseResponseBody` returns an error ONLY when a target was selected; the error
+is then the recorded one, a read failure or an unmarshalling failure — and nothing is bound. -/
+theorem parse_err_cases (i : BindIn) (e : Err) (herr : (parseBody i).err = some e) :
+    (∃ h t, i.http = some h ∧ selectTarget i = some t) ∧
+    (i.respErr = some e ∨ (i.respErr = none ∧ (e = .read ∨ e = .unmarshal))) ∧
+    (parseBody i).slots = i.slots := by
+  rw [parse_err] at herr
+  rw [parse_slots]
+  rcases hh : i.http with _ | h
+  · simp [hh] at herr
+  · rcases hsel : selectTarget i with _ | t
+    · simp [hh, hsel] at herr
+    · simp only [hh, hsel] at herr ⊢
+      refine ⟨⟨h, t, rfl, rfl⟩, ?_⟩
+      rcases hre : i.respErr with _ | e'
+      · simp only [hre] at herr
+        have hnr : ¬ Ready i h := by
+          intro ⟨_, h2, h3⟩
+          have : ¬ (i.bodyCached = false ∧ h.readOK = false) := by
+            rintro ⟨a, b⟩; rcases h2 with c | c <;> simp_all
+          simp [this, h3] at herr
+        refine ⟨Or.inr ⟨rfl, ?_⟩, by simp [hnr]⟩
+        split at herr
+        · left; cases herr; rfl
+        · split at herr
+          · cases herr
+          · right; cases herr; rfl
+      · simp only [hre] at herr
+        cases herr
+        exact ⟨Or.inl rfl, by simp [Ready, hre]⟩
+
+/-- The unmarshaller is XML exactly when the Content-Type mentions "xml" and not "json";
+everything else (including no Content-Type at all) goes to JSON. -/
+theorem codec_xml_iff (ct : Req.Proto.Bytes) :
+    codecFor ct = .xml ↔ hasSub sJson ct = false ∧ hasSub sXml ct = true := by
+  unfold codecFor
+  cases hasSub sJson ct <;> cases hasSub sXml ct <;> simp
+
+example : codecFor [116, 101, 120, 116, 47, 120, 109, 108] = .xml ∧ codecFor [] = .json
+    ∧ codecFor [120, 109, 108, 43, 106, 115, 111, 110] = .json := by decide
+
+end Req.Props.C18
